@@ -339,7 +339,7 @@ HARNESSES = {
         stubs=["none: real RTCPeerConnection objects; ICE gathers on local interfaces; background connection tasks are cancelled at the end of every path"],
         outside=OUT,
         twin="negotiated",
-        opts={"samples": 1, "path_timeout_s": 120},
+        opts={"samples": 1, "path_timeout_s": 120, "gc_guard": True},
     ),
     "directions": Harness("directions", h_directions, lambda tier: [{}], style="RT/DIFF", bounds="all 16 (offer direction, answerer preference) pairs", encoded=ENC, outside=OUT, twin="directions"),
     "codecs": Harness("codecs", h_codecs, lambda tier: [{"n": n} for n in ((1, 2) if tier == "quick" else (1, 2, 3))], style="DIFF", bounds="remote offer of <=2 (quick) / <=3 codecs: mime from {VP8, H264, rtx, unknown, case variant}, clock 90000/8000, payload type and apt symbolic 0..127 (distinct), 7 H.264 fmtp variants incl. invalid and absent profile, every feedback subset of 4; local codecs = the library's video capabilities", encoded=ENC, stubs=STUBS, outside=OUT, twin="codecs-intersected", opts={"samples": 1}),
